@@ -268,7 +268,7 @@ int main()
     gMainPid = getpid();
     while (readline(t)) {
         // every scenario is a process of its own as far as the process-wide switches go
-        UtestShell::setRethrowExceptions(false);
+        UtestShell::rethrowExceptions_ = false;         // the variable itself: the API that sets it is under test
         UtestShell::restoreDefaultTestTerminator();
         UtestShell::currentTest_ = 0; UtestShell::testResult_ = 0;
         bool dead = false;                              // an exception has left a run: the rest of the scenario is not run
